@@ -30,6 +30,20 @@
 // `errmode: "name"`: a (T, error) result becomes `Except String T`, the string being the NAME of the package-level
 // error variable returned (directly or as the %w operand of fmt.Errorf); the value returned beside a non-nil error
 // is dropped (it must be a pure expression).
+//
+// Labelling / age / If-Range of package proxy (added): `iota` constants (with Go's implicit repetition) are resolved to
+// their values from the source; `typeutils.None[T]()`, `typeutils.Some(x)`, `.IsSome()`, `.IsNone()`, `.ForceUnwrap()`
+// are Lean `Option` (ForceUnwrap is Option-valued: None = panic) — rules valid for the exact source text of
+// utils/typeutils/optional.go, which is checked on every run; field paths rooted at a variable (`a.B.C.D`), resolved
+// against the struct declarations of the package when the variable's type is known (promotion through embedded structs
+// inserts the embedded field, an unknown field is refused); a method called on a variable of a struct type of the
+// package is translated on demand (autoSpec: receiver binder from the caller's `structs` map); variables declared in a
+// block may shadow parameters (kinds / types are scoped); the builtins max / min; `int(d.Seconds())` on a
+// time.Duration = Rv.SrcStr.durSeconds (whole seconds, truncated; see its caveat); a leaf written "!term" maps a call
+// returning (T, error) to an Option-valued Lean term and is accepted ONLY in the form
+// `if v, err := f(args); err == nil { body }` (no else), translated to a match whose `some` arm is the body; spec mode
+// `block`: one `if` STATEMENT of a function returning `error` is translated to Option String (none = control falls out
+// of the statement, some "ErrX" = it returns that package-level error variable).
 package main
 
 import (
@@ -43,6 +57,7 @@ import (
 	"go/token"
 	"os"
 	"path/filepath"
+	"reflect"
 	"regexp"
 	"sort"
 	"strconv"
@@ -64,6 +79,7 @@ type Spec struct {
 	Pseudo   map[string]string `json:"pseudo"`  // pseudo result variables with their initial Lean value (returned by bare return / end)
 	Expr     string            `json:"expr"`    // if set: translate only the right-hand side of the first assignment to this variable
 	Cond     string            `json:"cond"`    // if set: translate only the condition of the first `if` whose printed condition matches this regexp
+	Block    string            `json:"block"`   // if set: translate only the first `if` STATEMENT whose printed condition matches this regexp, as a function to Option String: none = control falls out of the statement, some "ErrX" / some "nil" = it returns that error variable / nil
 	Doc      string            `json:"doc"`
 	Group    string            `json:"group"`    // output module: Rv/Generated/Src<Group>.lean
 	ErrMode  string            `json:"errmode"`  // "" (error => Bool) | "name" ((T, error) => Except String T, the NAME of the error variable)
@@ -86,6 +102,8 @@ type pkgInfo struct {
 	mapVars map[string]*ast.CompositeLit // package-level `var m = map[K]V{...}`
 	mapOK   map[string]string            // map variable => "" (checked: never modified) or the reason it may be
 	fileOf  map[*ast.FuncDecl]*ast.File
+	iotaOf  map[string]int      // constant => its index in its const block (the value of `iota` in its expression)
+	named   map[string]ast.Expr // package-level named type => its definition
 }
 
 var pkgs = map[string]*pkgInfo{}
@@ -95,7 +113,8 @@ func loadPkg(dir string) *pkgInfo {
 		return p
 	}
 	p := &pkgInfo{dir: dir, consts: map[string]ast.Expr{}, funcs: map[string]*ast.FuncDecl{}, structs: map[string]*ast.StructType{},
-		errVars: map[string]bool{}, mapVars: map[string]*ast.CompositeLit{}, mapOK: map[string]string{}, fileOf: map[*ast.FuncDecl]*ast.File{}}
+		errVars: map[string]bool{}, mapVars: map[string]*ast.CompositeLit{}, mapOK: map[string]string{}, fileOf: map[*ast.FuncDecl]*ast.File{},
+		iotaOf: map[string]int{}, named: map[string]ast.Expr{}}
 	ents, err := os.ReadDir(dir)
 	if err != nil {
 		fail("cannot read %s: %v", dir, err)
@@ -116,6 +135,7 @@ func loadPkg(dir string) *pkgInfo {
 				if d.Tok == token.TYPE {
 					for _, s := range d.Specs {
 						if ts, ok := s.(*ast.TypeSpec); ok {
+							p.named[ts.Name.Name] = ts.Type
 							if st, ok := ts.Type.(*ast.StructType); ok {
 								p.structs[ts.Name.Name] = st
 							}
@@ -125,8 +145,27 @@ func loadPkg(dir string) *pkgInfo {
 				if d.Tok != token.CONST && d.Tok != token.VAR {
 					continue
 				}
-				for _, s := range d.Specs {
+				var lastValues []ast.Expr
+				for si, s := range d.Specs {
 					vs := s.(*ast.ValueSpec)
+					if d.Tok == token.CONST {
+						// Go's implicit repetition: a const spec without values repeats the previous expression list, with
+						// `iota` = the index of the spec in the block
+						if len(vs.Values) > 0 {
+							lastValues = vs.Values
+						} else if lastValues != nil {
+							for i, nm := range vs.Names {
+								if i < len(lastValues) {
+									p.consts[nm.Name] = lastValues[i]
+									p.iotaOf[nm.Name] = si
+								}
+							}
+							continue
+						}
+						for _, nm := range vs.Names {
+							p.iotaOf[nm.Name] = si
+						}
+					}
 					for i, nm := range vs.Names {
 						if i < len(vs.Values) {
 							if d.Tok == token.VAR {
@@ -214,7 +253,7 @@ func show(n any) string {
 	return strings.Join(strings.Fields(b.String()), " ")
 }
 
-var leanKeywords = map[string]bool{"exists": true, "rest_": true, "r_": true, "v_": true, "end": true, "from": true, "at": true, "do": true, "then": true, "else": true, "match": true, "with": true,
+var leanKeywords = map[string]bool{"type": true, "exists": true, "rest_": true, "r_": true, "v_": true, "end": true, "from": true, "at": true, "do": true, "then": true, "else": true, "match": true, "with": true,
 	"fun": true, "let": true, "in": true, "open": true, "section": true, "namespace": true, "instance": true, "class": true, "structure": true,
 	"where": true, "have": true, "show": true, "by": true, "if": true, "def": true, "theorem": true, "Type": true, "Prop": true, "some": true, "none": true, "true": true, "false": true, "now": true}
 
@@ -275,7 +314,11 @@ type tr struct {
 	used         map[string]bool   // identifiers read by translated expressions (to find the free variables of a loop body)
 	loop         *loopCtx          // non-nil while the body of a range loop is translated
 	nloops       int
-	orderBinders []string // extra binders: iteration orders of the maps ranged over
+	orderBinders []string            // extra binders: iteration orders of the maps ranged over
+	iota         *int                // value of `iota` while a constant's expression is translated
+	gotypes      map[string]ast.Expr // Go type of a parameter / local when it is known syntactically
+	scopes       map[uintptr]scopeInfo
+	blockMode    bool // a single statement is translated (spec.block): see Spec.Block
 }
 
 // kinds of values the string subset knows about
@@ -377,8 +420,11 @@ func (t *tr) leaf(e ast.Node) (comp, bool) {
 			if !ok {
 				fail("%s: constant %s not found in %s", t.spec.Lean, parts[1], parts[0])
 			}
-			ot := &tr{spec: t.spec, pkg: other, locals: map[string]bool{}, plean: map[string]string{}, out: t.out, kinds: map[string]string{}, used: map[string]bool{}}
-			return ot.constExpr(cv), true
+			ot := &tr{spec: t.spec, pkg: other, locals: map[string]bool{}, plean: map[string]string{}, out: t.out, kinds: map[string]string{}, used: map[string]bool{}, gotypes: map[string]ast.Expr{}}
+			return ot.namedConst(parts[1], cv), true
+		}
+		if strings.HasPrefix(v, "!") {
+			fail("%s (%s): `%s` is a (value, error) leaf: it can only be used as `if v, err := %s; err == nil { ... }`", t.spec.Lean, t.spec.File, show(e), show(e))
 		}
 		if strings.HasPrefix(v, "?") {
 			n := t.freshName()
@@ -457,8 +503,11 @@ func (t *tr) expr(e ast.Expr) comp {
 			t.used[x.Name] = true
 			return pure(ln)
 		}
+		if x.Name == "iota" && t.iota != nil && !t.locals["iota"] {
+			return pure(fmt.Sprintf("(%d : Int)", *t.iota))
+		}
 		if cv, ok := t.pkg.consts[x.Name]; ok {
-			return t.constExpr(cv)
+			return t.namedConst(x.Name, cv)
 		}
 	case *ast.IndexExpr:
 		switch t.kindOf(x.X) {
@@ -599,11 +648,24 @@ func (t *tr) expr(e ast.Expr) comp {
 		if show(x) == "math.MaxInt64" && t.imports("math") && !t.locals["math"] {
 			return pure("(9223372036854775807 : Int)")
 		}
-		if id, ok := x.X.(*ast.Ident); ok && t.locals[id.Name] {
-			return pure(mangle(id.Name) + "." + mangle(lowerFirst(x.Sel.Name)))
-		}
-		if id, ok := x.X.(*ast.Ident); ok && t.plean[id.Name] != "" {
-			return pure(t.plean[id.Name] + "." + mangle(lowerFirst(x.Sel.Name)))
+		if t.rootedAtVar(x.X) {
+			// a field path rooted at a local or a parameter. When the Go type of the base is a struct of the package
+			// the path is resolved against its declaration (a field promoted through an embedded struct gets the
+			// embedded field inserted; an unknown field is refused); otherwise it is copied field by field and Lean's
+			// type checker decides whether the view has such a field.
+			base := t.expr(x.X)
+			path := []string{x.Sel.Name}
+			if st := t.structOf(t.goTypeOf(x.X)); st != nil {
+				pth, _, ok := t.resolveField(st, x.Sel.Name, 0)
+				if !ok {
+					fail("%s (%s): `%s`: the struct type of `%s` has no field %s", t.spec.Lean, t.spec.File, show(x), show(x.X), x.Sel.Name)
+				}
+				path = pth
+			}
+			for _, f := range path {
+				base.val += "." + mangle(lowerFirst(f))
+			}
+			return base
 		}
 		// a field of a value produced by a leaf or a call (e.g. `hd.CacheControl.Value().maxAge`)
 		if _, isCall := x.X.(*ast.CallExpr); isCall {
@@ -616,6 +678,227 @@ func (t *tr) expr(e ast.Expr) comp {
 	}
 	fail("%s (%s): cannot translate expression `%s` (canonical form `%s`): no leaf rule and not in the supported subset", t.spec.Lean, t.spec.File, show(e), t.canon(e))
 	return comp{}
+}
+
+// is the expression a variable (local or parameter) or a field path below one?
+func (t *tr) rootedAtVar(e ast.Expr) bool {
+	switch x := e.(type) {
+	case *ast.Ident:
+		return t.locals[x.Name] || t.plean[x.Name] != ""
+	case *ast.ParenExpr:
+		return t.rootedAtVar(x.X)
+	case *ast.SelectorExpr:
+		return t.rootedAtVar(x.X)
+	}
+	return false
+}
+
+// the struct declaration behind a Go type expression of the package (T or *T), nil when unknown
+func (t *tr) structOf(typ ast.Expr) *ast.StructType {
+	switch x := typ.(type) {
+	case *ast.StarExpr:
+		return t.structOf(x.X)
+	case *ast.ParenExpr:
+		return t.structOf(x.X)
+	case *ast.Ident:
+		return t.pkg.structs[x.Name]
+	case *ast.StructType:
+		return x
+	}
+	return nil
+}
+
+func typeBaseName(typ ast.Expr) string {
+	switch x := typ.(type) {
+	case *ast.StarExpr:
+		return typeBaseName(x.X)
+	case *ast.ParenExpr:
+		return typeBaseName(x.X)
+	case *ast.Ident:
+		return x.Name
+	}
+	return ""
+}
+
+// the path of field selectors that Go's selector `.name` stands for in struct st (promotion through embedded structs
+// of the package), and the type of the field
+func (t *tr) resolveField(st *ast.StructType, name string, depth int) ([]string, ast.Expr, bool) {
+	if depth > 4 {
+		return nil, nil, false
+	}
+	for _, f := range st.Fields.List {
+		for _, nm := range f.Names {
+			if nm.Name == name {
+				return []string{name}, f.Type, true
+			}
+		}
+		if len(f.Names) == 0 && typeBaseName(f.Type) == name {
+			return []string{name}, f.Type, true
+		}
+	}
+	var found []string
+	var ftype ast.Expr
+	n := 0
+	for _, f := range st.Fields.List {
+		if len(f.Names) == 0 {
+			if est := t.structOf(f.Type); est != nil {
+				if p, ty, ok := t.resolveField(est, name, depth+1); ok {
+					found, ftype = append([]string{typeBaseName(f.Type)}, p...), ty
+					n++
+				}
+			}
+		}
+	}
+	if n == 1 {
+		return found, ftype, true
+	}
+	return nil, nil, false
+}
+
+func optionalOf(elem ast.Expr) ast.Expr {
+	return &ast.IndexExpr{X: &ast.SelectorExpr{X: ast.NewIdent("typeutils"), Sel: ast.NewIdent("Optional")}, Index: elem}
+}
+
+// typeutils.Optional[T] => T
+func optionalElem(typ ast.Expr) ast.Expr {
+	if ix, ok := typ.(*ast.IndexExpr); ok && show(ix.X) == "typeutils.Optional" {
+		return ix.Index
+	}
+	return nil
+}
+
+// the Go type of an expression as far as it can be read off the syntax (declared types of parameters, struct fields
+// of the package, results of package functions, typeutils.None/Some/ForceUnwrap); nil = unknown
+func (t *tr) goTypeOf(e ast.Expr) ast.Expr {
+	switch x := e.(type) {
+	case *ast.ParenExpr:
+		return t.goTypeOf(x.X)
+	case *ast.Ident:
+		if t.locals[x.Name] || t.plean[x.Name] != "" {
+			return t.gotypes[x.Name]
+		}
+	case *ast.SelectorExpr:
+		if st := t.structOf(t.goTypeOf(x.X)); st != nil {
+			if _, ty, ok := t.resolveField(st, x.Sel.Name, 0); ok {
+				return ty
+			}
+		}
+	case *ast.CompositeLit:
+		return x.Type
+	case *ast.CallExpr:
+		if ix, ok := x.Fun.(*ast.IndexExpr); ok && show(ix.X) == "typeutils.None" {
+			return optionalOf(ix.Index)
+		}
+		if show(x.Fun) == "typeutils.Some" && len(x.Args) == 1 {
+			if et := t.goTypeOf(x.Args[0]); et != nil {
+				return optionalOf(et)
+			}
+		}
+		if show(x.Fun) == "time.Now" && len(x.Args) == 0 && t.imports("time") && !t.locals["time"] {
+			return &ast.SelectorExpr{X: ast.NewIdent("time"), Sel: ast.NewIdent("Time")}
+		}
+		if (show(x.Fun) == "time.Until" || show(x.Fun) == "time.Since") && len(x.Args) == 1 && t.imports("time") && !t.locals["time"] {
+			return &ast.SelectorExpr{X: ast.NewIdent("time"), Sel: ast.NewIdent("Duration")}
+		}
+		if sel, ok := x.Fun.(*ast.SelectorExpr); ok {
+			if sel.Sel.Name == "Sub" && len(x.Args) == 1 {
+				if gt := t.goTypeOf(sel.X); gt != nil && show(gt) == "time.Time" {
+					return &ast.SelectorExpr{X: ast.NewIdent("time"), Sel: ast.NewIdent("Duration")}
+				}
+			}
+			if sel.Sel.Name == "ForceUnwrap" {
+				if el := optionalElem(t.goTypeOf(sel.X)); el != nil {
+					return el
+				}
+			}
+			if tn := typeBaseName(t.goTypeOf(sel.X)); tn != "" {
+				if fd := t.pkg.funcs[tn+"."+sel.Sel.Name]; fd != nil && fd.Type.Results != nil && len(fd.Type.Results.List) == 1 && len(fd.Type.Results.List[0].Names) <= 1 {
+					return fd.Type.Results.List[0].Type
+				}
+			}
+		}
+		if id, ok := x.Fun.(*ast.Ident); ok && !t.locals[id.Name] {
+			if fd := t.pkg.funcs[id.Name]; fd != nil && fd.Type.Results != nil && len(fd.Type.Results.List) == 1 && len(fd.Type.Results.List[0].Names) <= 1 {
+				return fd.Type.Results.List[0].Type
+			}
+		}
+	}
+	return nil
+}
+
+// the Lean type of a Go type: basic types, named types of the package with a basic underlying type, structs mapped by
+// the spec, typeutils.Optional of those; "" = outside the subset
+func (t *tr) leanTypeOfGo(typ ast.Expr) string {
+	if typ == nil {
+		return ""
+	}
+	if el := optionalElem(typ); el != nil {
+		if in := t.leanTypeOfGo(el); in != "" {
+			return "Option (" + in + ")"
+		}
+		return ""
+	}
+	name := show(typ)
+	switch name {
+	case "int", "int64", "int32", "time.Duration", "time.Time":
+		return "Int"
+	case "bool":
+		return "Bool"
+	}
+	if l, ok := t.spec.Structs[typeBaseName(typ)]; ok {
+		return l
+	}
+	if id, ok := typ.(*ast.Ident); ok {
+		if def, ok := t.pkg.named[id.Name]; ok {
+			switch show(def) {
+			case "int", "int64", "int32":
+				return "Int"
+			case "bool":
+				return "Bool"
+			}
+		}
+	}
+	return ""
+}
+
+// the rules for typeutils.Optional are valid for THIS source text of the package (utils/typeutils/optional.go)
+var optionalBodies = map[string]string{
+	"Some":                 "{ return Optional[T]{value: value, some: true} }",
+	"None":                 "{ var zero T return Optional[T]{value: zero, some: false} }",
+	"Optional.IsSome":      "{ return o.some }",
+	"Optional.IsNone":      "{ return !o.some }",
+	"Optional.ForceUnwrap": "{ if !o.some { panic(ErrorUnwrapNone) } return o.value }",
+}
+
+func (t *tr) checkOptionalRule(name string) {
+	if !t.importsAs("reservoir/utils/typeutils", "typeutils") || t.locals["typeutils"] {
+		fail("%s (%s): `typeutils` is not the import of reservoir/utils/typeutils here", t.spec.Lean, t.spec.File)
+	}
+	tp := loadPkg(filepath.Join(repoRoot, "utils/typeutils"))
+	fd := tp.funcs[name]
+	if fd == nil || fd.Body == nil || show(fd.Body) != optionalBodies[name] {
+		got := "<absent>"
+		if fd != nil && fd.Body != nil {
+			got = show(fd.Body)
+		}
+		fail("%s (%s): typeutils.%s is no longer the function the Option rule was written for (its body is `%s`)", t.spec.Lean, t.spec.File, name, got)
+	}
+}
+
+func (t *tr) importsAs(path, name string) bool {
+	f := t.pkg.fileOf[t.fn]
+	if f == nil {
+		return false
+	}
+	for _, im := range f.Imports {
+		if p, _ := strconv.Unquote(im.Path.Value); p == path {
+			if im.Name == nil {
+				return filepath.Base(path) == name
+			}
+			return im.Name.Name == name
+		}
+	}
+	return false
 }
 
 // does the file of the function being translated import the standard package `path` under its own name?
@@ -779,6 +1062,11 @@ func (t *tr) compositeLit(x *ast.CompositeLit) comp {
 	tn := show(x.Type)
 	lean, ok := t.spec.Structs[tn]
 	st := t.pkg.structs[tn]
+	if t.locals[tn] || t.plean[tn] != "" {
+		// Go resolves the name to the variable: `v{...}` with v a variable does not compile; a variable declared by this
+		// very statement (x := x{..}) is not yet in scope on the right-hand side, which is the one case that reaches here
+		fail("%s (%s): composite literal `%s`: the type name %s is shadowed by a variable", t.spec.Lean, t.spec.File, show(x), tn)
+	}
 	if !ok || st == nil {
 		fail("%s (%s): composite literal `%s`: type %s is not a struct of the package mapped by the spec (structs)", t.spec.Lean, t.spec.File, show(x), tn)
 	}
@@ -833,8 +1121,18 @@ func (t *tr) tryConstInt(e ast.Expr) *int64 {
 	case *ast.ParenExpr:
 		return t.tryConstInt(x.X)
 	case *ast.Ident:
+		if x.Name == "iota" && t.iota != nil {
+			v := int64(*t.iota)
+			return &v
+		}
 		if cv, ok := t.pkg.consts[x.Name]; ok && !t.locals[x.Name] {
-			return t.tryConstInt(cv)
+			saved := t.iota
+			if k, ok := t.pkg.iotaOf[x.Name]; ok {
+				t.iota = &k
+			}
+			r := t.tryConstInt(cv)
+			t.iota = saved
+			return r
 		}
 	case *ast.BinaryExpr:
 		a, b := t.tryConstInt(x.X), t.tryConstInt(x.Y)
@@ -863,6 +1161,19 @@ func (t *tr) tryConstInt(e ast.Expr) *int64 {
 	return nil
 }
 
+// a package-level constant by name: its expression is translated with `iota` = the index of its spec in its block
+func (t *tr) namedConst(name string, cv ast.Expr) comp {
+	saved := t.iota
+	if k, ok := t.pkg.iotaOf[name]; ok {
+		t.iota = &k
+	} else {
+		t.iota = nil
+	}
+	c := t.constExpr(cv)
+	t.iota = saved
+	return c
+}
+
 // the value of a package-level constant, translated in place (so that a changed constant changes the definition)
 func (t *tr) constExpr(e ast.Expr) comp {
 	switch x := e.(type) {
@@ -878,6 +1189,19 @@ var convNames = map[string]bool{"int64": true, "int": true, "int32": true, "uint
 
 func (t *tr) call(x *ast.CallExpr) comp {
 	fn := show(x.Fun)
+	if (fn == "int" || fn == "int64") && len(x.Args) == 1 {
+		// int(d.Seconds()) on a time.Duration (nanoseconds): whole seconds, truncated toward zero
+		if inner, ok := x.Args[0].(*ast.CallExpr); ok && len(inner.Args) == 0 {
+			if sel, ok := inner.Fun.(*ast.SelectorExpr); ok && sel.Sel.Name == "Seconds" {
+				if gt := t.goTypeOf(sel.X); gt == nil || show(gt) != "time.Duration" {
+					fail("%s (%s): `%s`: the receiver of Seconds() is not known to be a time.Duration", t.spec.Lean, t.spec.File, show(x))
+				}
+				a := t.expr(sel.X)
+				a.val = "(Rv.SrcStr.durSeconds " + a.val + ")"
+				return a
+			}
+		}
+	}
 	if convNames[fn] && len(x.Args) == 1 {
 		if fn == "string" && t.kindOf(x.Args[0]) != kString && t.kindOf(x.Args[0]) != kStr && t.kindOf(x.Args[0]) != "" {
 			fail("%s (%s): conversion `%s` of a non-string to string", t.spec.Lean, t.spec.File, show(x))
@@ -886,6 +1210,19 @@ func (t *tr) call(x *ast.CallExpr) comp {
 			fail("%s (%s): conversion `%s` of a bare byte/rune (only `int64(ch - '0')`-style arithmetic is modelled)", t.spec.Lean, t.spec.File, show(x))
 		}
 		return t.expr(x.Args[0])
+	}
+	if (fn == "max" || fn == "min") && len(x.Args) >= 2 && !t.locals[fn] && t.plean[fn] == "" && t.pkg.funcs[fn] == nil {
+		// the builtins max / min on integers
+		c := t.expr(x.Args[0])
+		for _, a := range x.Args {
+			if k := t.kindOf(a); k != "" && k != kInt {
+				fail("%s (%s): `%s`: %s of a value of kind %s", t.spec.Lean, t.spec.File, show(x), fn, k)
+			}
+		}
+		for _, a := range x.Args[1:] {
+			c = join2(c, t.expr(a), func(p, q string) string { return "(" + fn + " " + p + " " + q + ")" })
+		}
+		return c
 	}
 	if fn == "len" && len(x.Args) == 1 && !t.locals["len"] {
 		k := t.kindOf(x.Args[0])
@@ -913,6 +1250,38 @@ func (t *tr) call(x *ast.CallExpr) comp {
 		a := t.expr(x.Args[0])
 		a.val = "(Rv.SrcStr.splitN2 " + charLit(rune(sv[0])) + " " + a.val + ")"
 		return a
+	}
+	// typeutils.Optional as Lean Option: None[T]() = none, Some(x) = some x, IsSome/IsNone, ForceUnwrap (panics on None:
+	// Option-valued, `none` = the panic)
+	if ix, ok := x.Fun.(*ast.IndexExpr); ok && show(ix.X) == "typeutils.None" && len(x.Args) == 0 {
+		t.checkOptionalRule("None")
+		lt := t.leanTypeOfGo(ix.Index)
+		if lt == "" {
+			fail("%s (%s): `%s`: element type %s is outside the subset", t.spec.Lean, t.spec.File, show(x), show(ix.Index))
+		}
+		return pure("(none : Option (" + lt + "))")
+	}
+	if fn == "typeutils.Some" && len(x.Args) == 1 {
+		t.checkOptionalRule("Some")
+		a := t.expr(x.Args[0])
+		a.val = "(some " + a.val + ")"
+		return a
+	}
+	if sel, ok := x.Fun.(*ast.SelectorExpr); ok && len(x.Args) == 0 && (sel.Sel.Name == "IsSome" || sel.Sel.Name == "IsNone" || sel.Sel.Name == "ForceUnwrap") {
+		if optionalElem(t.goTypeOf(sel.X)) != nil {
+			t.checkOptionalRule("Optional." + sel.Sel.Name)
+			a := t.expr(sel.X)
+			switch sel.Sel.Name {
+			case "IsSome":
+				a.val = a.val + ".isSome"
+				return a
+			case "IsNone":
+				a.val = a.val + ".isNone"
+				return a
+			}
+			n := t.freshName()
+			return comp{pre: append(a.pre, bind{n, a.val}), val: n}
+		}
 	}
 	// time arithmetic on instants / durations modelled as Int
 	if sel, ok := x.Fun.(*ast.SelectorExpr); ok {
@@ -958,6 +1327,15 @@ func (t *tr) call(x *ast.CallExpr) comp {
 			k := recvTypeName(t.fn.Recv.List[0].Type) + "." + f.Sel.Name
 			if _, ok := t.pkg.funcs[k]; ok {
 				key, recvArg = k, f.X
+			}
+		}
+		// method on a variable (or a field path below one) whose type is a struct of the package
+		if key == "" && t.rootedAtVar(f.X) {
+			if tn := typeBaseName(t.goTypeOf(f.X)); tn != "" && t.pkg.structs[tn] != nil {
+				k := tn + "." + f.Sel.Name
+				if _, ok := t.pkg.funcs[k]; ok {
+					key, recvArg = k, f.X
+				}
 			}
 		}
 	}
@@ -1047,6 +1425,14 @@ func (t *tr) zero(typ ast.Expr) string {
 	case "error":
 		return "true"
 	}
+	switch lt := t.leanTypeOfGo(typ); {
+	case lt == "Int":
+		return "(0 : Int)"
+	case lt == "Bool":
+		return "false"
+	case strings.HasPrefix(lt, "Option ("):
+		return "(none : " + lt + ")"
+	}
 	fail("%s: zero value of type %s", t.spec.Lean, show(typ))
 	return ""
 }
@@ -1086,6 +1472,9 @@ func (t *tr) wrapReturn(c comp) string {
 func (t *tr) endValue() string {
 	if t.loop != nil {
 		return t.continueTerm()
+	}
+	if t.blockMode {
+		return "some (none)" // control falls out of the translated statement
 	}
 	if len(t.named) > 0 {
 		vs := []string{}
@@ -1149,6 +1538,20 @@ func (t *tr) stmts(list []ast.Stmt) string {
 				return "some (Rv.SrcStr.Loop.ret " + strings.TrimPrefix(v, "some ") + ")"
 			}
 			return t.endValue()
+		}
+		if t.blockMode {
+			if t.loop != nil || len(x.Results) != 1 {
+				fail("%s (%s): `%s` inside a block translation", t.spec.Lean, t.spec.File, show(x))
+			}
+			if id, ok := x.Results[0].(*ast.Ident); ok && !t.locals[id.Name] && t.plean[id.Name] == "" {
+				if id.Name == "nil" {
+					return "some (some \"nil\")"
+				}
+				if t.pkg.errVars[id.Name] {
+					return "some (some " + leanString(id.Name) + ")"
+				}
+			}
+			fail("%s (%s): `%s`: a block translation can only return nil or a package-level `var ErrX = errors.New(..)`", t.spec.Lean, t.spec.File, show(x))
 		}
 		if len(x.Results) != len(t.spec.Results) {
 			fail("%s: return with %d values, spec declares %d", t.spec.Lean, len(x.Results), len(t.spec.Results))
@@ -1264,7 +1667,9 @@ func (t *tr) stmts(list []ast.Stmt) string {
 				fail("%s: assignment operator in %s", t.spec.Lean, show(x))
 			}
 			if x.Tok == token.DEFINE {
+				gt := t.goTypeOf(x.Rhs[0]) // before the declaration: the right-hand side is evaluated in the outer scope
 				t.declareK(id.Name, kind)
+				t.gotypes[id.Name] = gt
 			} else if !t.locals[id.Name] {
 				fail("%s (%s): assignment to non-local `%s`", t.spec.Lean, t.spec.File, id.Name)
 			} else if x.Tok == token.ASSIGN && t.kinds[id.Name] != "" && kind != "" && kind != t.kinds[id.Name] {
@@ -1357,6 +1762,9 @@ func (t *tr) stmts(list []ast.Stmt) string {
 		}
 		fail("%s (%s): assignment `%s` not in the supported subset", t.spec.Lean, t.spec.File, show(x))
 	case *ast.IfStmt:
+		if r, ok := t.ifValueErr(x, rest); ok {
+			return r
+		}
 		if x.Init != nil {
 			inner := *x
 			inner.Init = nil
@@ -1449,6 +1857,60 @@ func (t *tr) stmts(list []ast.Stmt) string {
 	}
 	fail("%s (%s): statement `%s` is outside the supported subset", t.spec.Lean, t.spec.File, strings.SplitN(show(s), "{", 2)[0])
 	return ""
+}
+
+// `if v, err := f(args); err == nil { body }` where the spec maps the call f(args) to an Option-valued Lean term by a
+// leaf rule written "!term" (some v = the call returned (v, nil); none = it returned an error). Only this form is
+// supported: the value is in scope in the body only, i.e. only where err == nil, so the value Go returns beside a
+// non-nil error is never read. Anything else about such a leaf (an else branch, another condition, a plain
+// `v, err := f()` statement) is refused.
+func (t *tr) ifValueErr(x *ast.IfStmt, rest []ast.Stmt) (string, bool) {
+	as, ok := x.Init.(*ast.AssignStmt)
+	if !ok || as.Tok != token.DEFINE || len(as.Lhs) != 2 || len(as.Rhs) != 1 {
+		return "", false
+	}
+	lv, ok := t.spec.Leaves[t.canon(as.Rhs[0])]
+	if !ok || !strings.HasPrefix(lv, "!") {
+		return "", false
+	}
+	where := fmt.Sprintf("%s (%s): `if %s; %s`", t.spec.Lean, t.spec.File, show(as), show(x.Cond))
+	v, okv := as.Lhs[0].(*ast.Ident)
+	e, oke := as.Lhs[1].(*ast.Ident)
+	if !okv || !oke || v.Name == "_" || e.Name == "_" {
+		fail("%s: the two results must be named", where)
+	}
+	cond, okc := x.Cond.(*ast.BinaryExpr)
+	if !okc || cond.Op != token.EQL || show(cond.X) != e.Name || show(cond.Y) != "nil" || t.locals["nil"] {
+		fail("%s: only the condition `%s == nil` is supported for a (value, error) leaf", where, e.Name)
+	}
+	if x.Else != nil {
+		fail("%s: an else branch (where the value beside a non-nil error could be read) is not supported", where)
+	}
+	if t.locals[v.Name] || t.plean[v.Name] != "" || t.locals[e.Name] || t.plean[e.Name] != "" {
+		fail("%s: the declared variables shadow outer ones", where)
+	}
+	used := false
+	ast.Inspect(x.Body, func(n ast.Node) bool {
+		if id, ok := n.(*ast.Ident); ok && id.Name == e.Name {
+			used = true
+		}
+		return true
+	})
+	if used {
+		fail("%s: the body reads the error variable", where)
+	}
+	thenL := append([]ast.Stmt{}, x.Body.List...)
+	t.checkNoShadow(thenL)
+	saved := t.snapshot()
+	t.declareK(v.Name, "")
+	if !terminates(thenL) {
+		thenL = append(thenL, rest...)
+	}
+	thenS := t.stmts(thenL)
+	t.restore(saved)
+	elseS := t.stmts(append([]ast.Stmt{}, rest...))
+	t.restore(saved)
+	return "match " + lv[1:] + " with\n  | some " + mangle(v.Name) + " =>\n  (" + thenS + ")\n  | none =>\n  (" + elseS + ")", true
 }
 
 // return v, err with errmode "name": Except String T
@@ -1775,7 +2237,7 @@ func (g *genOut) ensureMap(from *tr, name string) (lean string, keyKind string, 
 	if why := p.mapOK[name]; why != "" {
 		fail("%s: map `%s` may be modified: %s", from.spec.Lean, name, why)
 	}
-	ct := &tr{spec: from.spec, pkg: p, fn: from.fn, locals: map[string]bool{}, plean: map[string]string{}, out: g, kinds: map[string]string{}, used: map[string]bool{}}
+	ct := &tr{spec: from.spec, pkg: p, fn: from.fn, locals: map[string]bool{}, plean: map[string]string{}, out: g, kinds: map[string]string{}, used: map[string]bool{}, gotypes: map[string]ast.Expr{}}
 	rows := []string{}
 	seen := map[string]bool{}
 	for _, el := range cl.Elts {
@@ -1898,6 +2360,19 @@ func (t *tr) snapshot() map[string]bool {
 	for k, v := range t.locals {
 		m[k] = v
 	}
+	// a variable declared in a block may shadow a parameter (`cached := cached.ForceUnwrap()`): what is known about
+	// the names is saved with the scope and put back when the block is left
+	sc := scopeInfo{kinds: map[string]string{}, gotypes: map[string]ast.Expr{}}
+	for k, v := range t.kinds {
+		sc.kinds[k] = v
+	}
+	for k, v := range t.gotypes {
+		sc.gotypes[k] = v
+	}
+	if t.scopes == nil {
+		t.scopes = map[uintptr]scopeInfo{}
+	}
+	t.scopes[reflect.ValueOf(m).Pointer()] = sc
 	return m
 }
 func (t *tr) restore(m map[string]bool) {
@@ -1905,6 +2380,20 @@ func (t *tr) restore(m map[string]bool) {
 	for k, v := range m {
 		t.locals[k] = v
 	}
+	if sc, ok := t.scopes[reflect.ValueOf(m).Pointer()]; ok {
+		t.kinds, t.gotypes = map[string]string{}, map[string]ast.Expr{}
+		for k, v := range sc.kinds {
+			t.kinds[k] = v
+		}
+		for k, v := range sc.gotypes {
+			t.gotypes[k] = v
+		}
+	}
+}
+
+type scopeInfo struct {
+	kinds   map[string]string
+	gotypes map[string]ast.Expr
 }
 
 // a `:=` inside a nested block that re-declares a visible name would be scoped to the block in Go; the flattened
@@ -1979,12 +2468,26 @@ func autoSpec(from *tr, key string) *Spec {
 				}
 			}
 		}
+		if l, ok := from.spec.Structs[typeBaseName(e)]; ok {
+			return l
+		}
 		fail("%s: calls %s whose signature uses the type %s (no automatic spec)", from.spec.Lean, key, show(e))
 		return ""
 	}
 	sp := &Spec{File: from.spec.File, Func: fn.Name.Name, Lean: from.spec.Lean + "_" + mangle(lowerFirst(fn.Name.Name)), Group: from.spec.Group,
-		Leaves: map[string]string{}, Ignore: from.spec.Ignore, Doc: "helper translated on demand (automatic spec)"}
-	if fn.Recv != nil && len(fn.Recv.List) == 1 {
+		Leaves: map[string]string{}, Ignore: from.spec.Ignore, Doc: "helper translated on demand (automatic spec)", Structs: from.spec.Structs, Imports: from.spec.Imports}
+	sameRecv := fn.Recv != nil && from.fn != nil && from.fn.Recv != nil && recvTypeName(from.fn.Recv.List[0].Type) == recvTypeName(fn.Recv.List[0].Type) && !from.spec.FuncLit
+	if fn.Recv != nil && len(fn.Recv.List) == 1 && !sameRecv {
+		// a method of another struct type of the package, called on a variable: the receiver is an ordinary first binder
+		// whose Lean type the caller's `structs` map gives
+		rt := recvTypeName(fn.Recv.List[0].Type)
+		lt, ok := from.spec.Structs[rt]
+		if !ok || len(fn.Recv.List[0].Names) != 1 {
+			fail("%s: calls the method %s of another receiver type that the spec's structs map does not cover (no automatic spec)", from.spec.Lean, key)
+		}
+		sp.Recv = rt
+		sp.Binders = append(sp.Binders, "("+mangle(fn.Recv.List[0].Names[0].Name)+" : "+lt+")")
+	} else if fn.Recv != nil && len(fn.Recv.List) == 1 {
 		if from.fn == nil || from.fn.Recv == nil || recvTypeName(from.fn.Recv.List[0].Type) != recvTypeName(fn.Recv.List[0].Type) || len(from.spec.Binders) == 0 {
 			fail("%s: calls the method %s of another receiver type (no automatic spec)", from.spec.Lean, key)
 		}
@@ -2079,7 +2582,7 @@ func translate(g *genOut, pkg *pkgInfo, sp *Spec, key string) {
 	if !ok {
 		fail("%s: function %s not found in %s", sp.Lean, key, pkg.dir)
 	}
-	t := &tr{spec: sp, pkg: pkg, fn: fn, locals: map[string]bool{}, plean: map[string]string{}, out: g, kinds: map[string]string{}, used: map[string]bool{}}
+	t := &tr{spec: sp, pkg: pkg, fn: fn, locals: map[string]bool{}, plean: map[string]string{}, out: g, kinds: map[string]string{}, used: map[string]bool{}, gotypes: map[string]ast.Expr{}}
 	if fn.Recv != nil && len(fn.Recv.List) == 1 && len(fn.Recv.List[0].Names) == 1 {
 		t.recv = fn.Recv.List[0].Names[0].Name
 	}
@@ -2099,7 +2602,7 @@ func translate(g *genOut, pkg *pkgInfo, sp *Spec, key string) {
 			paramTypes[n.Name] = f.Type
 		}
 	}
-	if !sp.FuncLit && sp.Expr == "" && sp.Cond == "" {
+	if !sp.FuncLit && sp.Expr == "" && sp.Cond == "" && sp.Block == "" {
 		// positional correspondence: receiver (if any) then the Go parameters <=> the first binders of the spec
 		bn := []string{}
 		for _, b := range sp.Binders {
@@ -2126,6 +2629,10 @@ func translate(g *genOut, pkg *pkgInfo, sp *Spec, key string) {
 				}
 			}
 			t.kinds[pn] = kind
+			t.gotypes[pn] = paramTypes[pn]
+		}
+		if t.recv != "" && fn.Recv != nil && !sp.FuncLit {
+			t.gotypes[t.recv] = fn.Recv.List[0].Type
 		}
 	}
 	pre := ""
@@ -2164,6 +2671,23 @@ func translate(g *genOut, pkg *pkgInfo, sp *Spec, key string) {
 			fail("%s: no assignment to `%s` in %s", sp.Lean, sp.Expr, key)
 		}
 		bodyTerm = t.expr(rhs).render()
+	case sp.Block != "":
+		var blk *ast.IfStmt
+		re := regexp.MustCompile(sp.Block)
+		ast.Inspect(body, func(n ast.Node) bool {
+			if i, ok := n.(*ast.IfStmt); ok && blk == nil && re.MatchString(show(i.Cond)) {
+				blk = i
+			}
+			return blk == nil
+		})
+		if blk == nil {
+			fail("%s: no `if` statement whose condition matches %s in %s", sp.Lean, sp.Block, key)
+		}
+		if sp.Ret != "Option String" || ftype.Results == nil || len(ftype.Results.List) != 1 || show(ftype.Results.List[0].Type) != "error" {
+			fail("%s: a block spec needs ret \"Option String\" and a Go function with the single result `error`", sp.Lean)
+		}
+		t.blockMode = true
+		bodyTerm = t.stmts([]ast.Stmt{blk})
 	case sp.Cond != "":
 		var cond ast.Expr
 		re := regexp.MustCompile(sp.Cond)
@@ -2182,6 +2706,9 @@ func translate(g *genOut, pkg *pkgInfo, sp *Spec, key string) {
 	}
 	pos := fset.Position(fn.Pos())
 	rel := sp.File
+	if r, err := filepath.Rel(repoRoot, pos.Filename); err == nil && !strings.HasPrefix(r, "..") {
+		rel = r // the file the function is really in (a helper translated on demand may live in another file)
+	}
 	doc := fmt.Sprintf("/-- translated from `%s` (%s:%d)%s -/\n", key, rel, pos.Line, map[bool]string{true: " — " + sp.Doc, false: ""}[sp.Doc != ""])
 	attr := ""
 	if strings.HasPrefix(sp.Doc, "helper translated on demand") {
@@ -2287,7 +2814,7 @@ func translateGroup(grp string, specs []*Spec) (text string, refused string) {
 			if s.Recv != "" {
 				k = s.Recv + "." + s.Func
 			}
-			if s.Expr != "" || s.Cond != "" {
+			if s.Expr != "" || s.Cond != "" || s.Block != "" {
 				base := k
 				k = k + "#" + s.Lean
 				pkg.funcs[k] = pkg.funcs[base]
